@@ -10,6 +10,7 @@ OUT = os.environ.get('VERIF_OUT', ROOT)
 EVIDENCE = os.path.join(OUT, 'evidence')
 REPLAYS = os.path.join(OUT, 'replays')
 FINDINGS = os.path.join(ROOT, 'known_findings.json')
+PRINTED = [0]        # VIOLATION lines printed by this process (a later machinery failure must not mask them)
 
 
 def load_findings():
@@ -122,6 +123,7 @@ class Check(object):
                 json.dump({'property': self.pid, 'sig': jsonable(sig), 'what': what,
                            'replay': jsonable(replay)}, f, indent=1)
             self.violations.append({'sig': jsonable(sig), 'what': what, 'replay': path})
+            PRINTED[0] += 1
             print('VIOLATION property=%s replay=%s' % (self.pid, path))
             print('  ' + what[:600])
             sys.stdout.flush()
